@@ -100,6 +100,8 @@ func rebuild(t *Term, a []*Term) *Term {
 		return SExt(t.S.W, a[0])
 	case "concat":
 		return Concat(a[0], a[1])
+	case "select":
+		return Select(a[0], a[1])
 	case "store":
 		return Store(a[0], a[1], a[2])
 	case "constarr":
